@@ -531,8 +531,9 @@ def run_property(pid, tier, seed, cfg, scratch, t0):
         "wall_s": round(time.time() - t0, 2),
         "violations": sum(1 for l in lines),
     }
-    os.makedirs(os.path.join(VERIF, "evidence"), exist_ok=True)
-    with open(os.path.join(VERIF, "evidence", pid + ".json"), "w") as f:
+    evdir = os.environ.get("VERIF_EVIDENCE_DIR", os.path.join(VERIF, "evidence"))
+    os.makedirs(evdir, exist_ok=True)
+    with open(os.path.join(evdir, pid + ".json"), "w") as f:
         json.dump(ev, f, indent=1, default=str)
     log("check %s tier=%s: exit=%d paths=%d violations(sigs)=%d confirmed=%d known=%d inconclusive=%d wall=%.1fs" % (
         pid, tier, exit_code, agg["paths"], len(by_sig), len(confirmed), len(seen_kf), len(inconclusive), time.time() - t0))
